@@ -107,39 +107,20 @@ def run(ctx, chk):
         # ---- rule 2 / 3: getters
         grb = method(ty, 'get_rom_bank') if method(ty, 'get_rom_bank') in prog.fns else 'cart::CartState::get_rom_bank'
         gra = method(ty, 'get_ram_bank') if method(ty, 'get_ram_bank') in prog.fns else 'cart::CartState::get_ram_bank'
-        st = ip.new_state()
-        me = ip.arg_object(st, 'cart')
-        rs = ip.run(grb, [me], st)
-        zero_paths = []
-        for r in rs:
-            if r.status != 'ok' or r.ret is None:
-                zero_paths.append('path diverges')
-                continue
-            av = r.state.env.av(r.ret)
-            if av.lo == 0:
-                zero_paths.append('returns %s in [%#x,%#x] when %s' % (fmt(r.ret), av.lo, av.hi, path_cond(r)))
-        if zero_paths:
-            chk.fail('C12.2', fam, '%s get_rom_bank can select bank 0 for the switchable window: %s'
-                     % (fam, zero_paths[0]), cfile, prog.fns[grb]['line'] if grb in prog.fns else None)
-        else:
-            chk.ok('C12.2', fam, sample={'controller': fam, 'paths': len(rs)})
-        if fam == 'MBC1':
-            check_mbc1(chk, ip, ty, rs, gra, cfile)
-        elif fam == 'MBC3':
-            st = ip.new_state()
-            me = ip.arg_object(st, 'cart')
-            rr = ip.run(gra, [me], st)
-            okk = len(rr) == 1 and rr[0].status == 'ok' and is_field(rr[0].ret, 'ram_bank')
-            if okk:
-                chk.ok('C12.3', 'MBC3:ram_bank')
-            else:
-                chk.fail('C12.3', 'MBC3:ram_bank', 'MBC3 get_ram_bank is not the RAM bank register', cfile, None)
-        else:
+        # value level: the getters as functions of the controller registers (bounded by their field invariants),
+        # compared bit-precisely with the register protocol - any way of writing them is accepted
+        if fam in ('MBC1', 'MBC3'):
+            getter_values(chk, ip, fam, grb, gra, cfile, prog)
+        if fam == 'ROM-only':
             st = ip.new_state()
             me = ip.arg_object(st, 'cart')
             rr = ip.run(gra, [me], st)
             rb = ip.run(grb, [me], st)
             okk = all(r.status == 'ok' and r.ret == C(64, 0) for r in rr) and all(r.ret == C(64, 1) for r in rb)
+            if all(r.status == 'ok' and r.ret is not None and T.is_int(r.ret) and r.state.env.av(r.ret).lo > 0 for r in rb):
+                chk.ok('C12.2', 'ROM-only', nontrivial=False)
+            else:
+                chk.fail('C12.2', 'ROM-only', 'ROM-only get_rom_bank can return bank 0', cfile, None)
             if okk:
                 chk.ok('C12.3', 'ROM-only:constants', sample={'rom_bank': 1, 'ram_bank': 0})
             else:
@@ -411,3 +392,101 @@ def _syms_of(t):
             elif x[0] == 'o':
                 stack.extend(x[3:])
     return out
+
+
+def getter_values(chk, ip, fam, grb, gra, cfile, prog):
+    from .. import bvproof
+    from ..bdd import BV, Unsupported
+
+    def field_syms(r):
+        out = {}
+        seen = set()
+        stack = [r.ret] + [t for k, t, v in r.state.env.log]
+        while stack:
+            x = stack.pop()
+            if not isinstance(x, tuple) or not x or x in seen:
+                continue
+            seen.add(x)
+            if x[0] == 's' and x[3] and x[3][0] == 'field':
+                out[x[3][2]] = x
+            elif x[0] == 'o':
+                stack.extend(x[3:])
+        return out
+
+    def run(fn):
+        st = ip.new_state()
+        me = ip.arg_object(st, 'cart')
+        return ip.run(fn, [me], st)
+
+    def reg(m, conv, syms, name, width=64):
+        t = syms.get(name)
+        if t is None:
+            return BV.sym(m, 'unused:' + name, width)
+        v = conv(t)
+        return v.zext(width) if len(v) < width else v.trunc(width)
+
+    def boolean(m, conv, syms, name):
+        t = syms.get(name)
+        if t is None:
+            return m.var_of('unused:' + name, 0)
+        return conv(t).nonzero()
+    results = {'rom': [], 'ram': []}
+    for kind, fn in (('rom', grb), ('ram', gra)):
+        for r in run(fn):
+            key = '%s:%s' % (fam, kind)
+            if r.status != 'ok' or r.ret is None or not T.is_int(r.ret):
+                chk.fail('C12.3', key, '%s get_%s_bank does not return on some path (%s)' % (fam, kind, r.detail), cfile, None)
+                return
+            try:
+                m, conv, K = bvproof.setup(r.state.env)
+                syms = field_syms(r)
+                got = conv(r.ret)
+                got = got.zext(64) if len(got) < 64 else got
+                rb = reg(m, conv, syms, 'rom_bank')
+                ab = reg(m, conv, syms, 'ram_bank')
+                low = BV.mux(m, m.NOT(rb.nonzero()), BV.const(m, 64, 1), rb)
+                if fam == 'MBC1':
+                    mode1 = boolean(m, conv, syms, 'select_ram')
+                    if kind == 'rom':
+                        full = ab.shl(5) | low
+                        want = [BV.mux(m, mode1, low, full), full]       # both documented conventions for mode 1
+                    else:
+                        want = [BV.mux(m, mode1, ab, BV.const(m, 64, 0))]
+                else:
+                    want = [low] if kind == 'rom' else [ab]
+                ds = [m.AND(K, got.diff(w_)) for w_ in want]
+                zero = m.AND(K, m.NOT(got.nonzero())) if kind == 'rom' else 0
+            except Unsupported as e:
+                chk.error('C12.3 %s: outside the bit-vector fragment: %s' % (key, e.why))
+                return
+            results[kind].append((m, ds, zero, r, syms))
+    # rule 2: never bank 0
+    bad0 = [x for x in results['rom'] if x[2] != 0]
+    if bad0:
+        m, ds, zero, r, syms = bad0[0]
+        w = m.witness(zero)
+        chk.fail('C12.2', fam, '%s get_rom_bank selects bank 0 for the switchable window when %s'
+                 % (fam, ', '.join('%s=%#x' % (k.split('.')[-1], v) for k, v in sorted(w.items()))), cfile,
+                 prog.fns[grb]['line'] if grb in prog.fns else None)
+    else:
+        chk.ok('C12.2', fam, sample={'controller': fam, 'paths': len(results['rom'])})
+    # rule 3: the register -> bank functions
+    for kind, key, what in (('rom', '%s:mode0' % fam if fam == 'MBC1' else '%s:rom_bank' % fam,
+                             '(ram_bank << 5) | (rom_bank or 1) in mode 0' if fam == 'MBC1' else 'rom_bank or 1'),
+                            ('ram', '%s:ram_bank' % fam, 'ram_bank iff mode 1 else 0' if fam == 'MBC1' else 'ram_bank')):
+        bad = None
+        for m, ds, zero, r, syms in results[kind]:
+            # one convention must hold on the whole path set: find a convention index that every path satisfies
+            pass
+        nconv = len(results[kind][0][1]) if results[kind] else 0
+        okc = [ci for ci in range(nconv) if all(x[1][ci] == 0 for x in results[kind])]
+        if results[kind] and okc:
+            chk.ok('C12.3', key, sample={'controller': fam, 'bank': kind, 'function': what})
+        elif not results[kind]:
+            chk.fail('C12.3', key, 'no completing path of %s get_%s_bank' % (fam, kind), cfile, None)
+        else:
+            m, ds, zero, r, syms = [x for x in results[kind] if x[1][0] != 0][0]
+            w = m.witness(ds[0])
+            chk.fail('C12.3', key, '%s get_%s_bank is not %s: differs for %s (returns %s)'
+                     % (fam, kind, what, ', '.join('%s=%#x' % (k.split('.')[-1], v) for k, v in sorted(w.items())),
+                        fmt(r.ret)[:80]), cfile, None)
